@@ -21,11 +21,11 @@ TEXT = {
          "The whole ordered list of callback invocations (who, old, new by pointer identity) must equal the model's at every quiescent point; both race orders of store / registration / event are generated deliberately. Bounded histories, queue kept below the documented overflow."),
  "C07": ("rapid stateful histories inside a synctest bubble; caller contexts cancelled before submission or while the monitor is parked in Verify / after the store / before the reply; oracle = exact model + monitor-loop counter + synctest deadlock detection",
          "Checks read-your-write at return, error/view coupling on rejection, context errors, and that the monitor returns to its loop after an abandoned caller (an unbuffered reply channel is caught). Windows are forced by hooks; other interleavings are sampled."),
- "C08": ("rapid histories ending in a shutdown (cancel or all watchers Done) followed by late API calls under virtual-time contexts, plus free-running multi-goroutine op mixes; oracle = no panic, monitor exits, late calls fail by their deadline, synctest deadlock and goroutine-leak detection",
+ "C08": ("rapid histories ending in a shutdown (cancel or all watchers Done) followed by late API calls under virtual-time contexts, plus free-running multi-goroutine op mixes; oracle = no panic, monitor exits, late calls fail by their deadline, synctest deadlock and goroutine-leak detection; Blank.SetSource/Done scripts after failed or abandoned calls; a structural wedge watchdog (goroutine states, not elapsed time) turns a leaked lock inside a bubble into a replayable failure",
          "Deadlock/leak freedom is decided exactly per explored execution by testing/synctest; the set of executions is sampled (controlled shutdown histories + free-running actors), so rare interleavings may be missed."),
- "C09": ("rapid stateful histories over all Delay x Suppress combinations with and without watchers; exact state machine over the Verify log, EnableVerification results and the global-callback list",
+ "C09": ("rapid stateful histories over all Delay x Suppress combinations with and without watchers; exact state machine over the Verify log, EnableVerification results and the global-callback list; the same state machine for a config type without a Verify method",
          "Small state space explored densely (thousands of op sequences of length <=12): Verify never before enable, enable verifies exactly the installed pointer, failure keeps the delay, callbacks withheld iff delay in force and suppress option."),
- "C20": ("rapid differential test: a transforming source with 9 mangler lists around static/watching/failing inner sources vs an unwrapped Dials fed natively, and model-based scripts of SetSource/Done on a Blank, all inside synctest bubbles",
+ "C20": ("rapid differential test: a transforming source with 9 mangler lists around static/watching/failing inner sources vs an unwrapped Dials fed natively, model-based scripts of SetSource/Done on a Blank (inner watchers that report at once or later), all inside synctest bubbles; one transforming decoder value reused for several config types against natively filled values",
          "Views behind the wrapper must equal the unwrapped reference and a pure model after the initial stack and every update; errors must surface; Blank's delegation/ownership rules are checked against a small reference model. Mangler lists come from a fixed menu."),
  "C10": ("rapid property tests: generated struct types x mangler chains (the 15 shipped chain variants built from the exported constructors, plus random sub-chains of all nine manglers, optionally two stacked transformers); a descriptor-level model of each mangler locates translated fields by documented key, fills a subset, reverse-translates",
          "Result type must equal the pointerified original exactly, each written leaf holds the value converted back, every other leaf is nil, parents allocated iff a child is set, the all-empty value reverses to all-nil; TranslateType's key set must equal the model's. Bounded shapes; key words known by construction."),
